@@ -668,11 +668,12 @@ class Env:
         self.rw_full.pop_divisors()
         return z3.is_true(r)
 
-    def add(self, c):
-        """add a constraint to the path condition"""
-        c = self._rewrite(c)
-        self.pc.append(c)
-        self.solver.add(c)
+    def add(self, *cs):
+        """add constraints to the path condition"""
+        for c in cs:
+            c = self._rewrite(c)
+            self.pc.append(c)
+            self.solver.add(c)
 
     def sign_of(self, e):
         """+1 / -1 if the sign of e is determined by the path condition, else 0"""
@@ -829,6 +830,13 @@ class Env:
         if hi is not None:
             self.add(v <= hi)
         return SymInt(v)
+
+    def string(self, name, default=""):
+        if self.mode == "conc":
+            return str(self.values.get(name, default))
+        v = z3.String(name)
+        self.inputs[name] = v
+        return v
 
     def bool(self, name):
         if self.mode == "conc":
@@ -997,6 +1005,8 @@ class Env:
         rng = random.Random(hash((len(self.pc), tries)) & 0xFFFF)
         names = [n for n, v in self.inputs.items() if z3.is_real(v)]
         total = 0.0
+        if not names:
+            return "unknown", None, total
         for k in range(tries):
             pins = []
             free = set(rng.sample(names, min(len(names), 1 if k % 2 == 0 else 2))) if names else set()
